@@ -201,6 +201,35 @@ def run(ck):
         ck.leanchecker(["NfcVerif.Props.C10"])
     model = Model("drv_c10")
 
+    class Recorder(object):
+        """stands in for every service access point of the receiving controller"""
+        mode = 1
+
+        def __init__(self, log_):
+            self.log = log_
+
+        def enqueue(self, p):
+            self.log.append(p.encode())
+
+    def receive(rcvd, debug_on):
+        seen = []
+        rx = llcmod.LogicalLinkController(sec=False)
+        rx.sap = [Recorder(seen) for _ in range(64)]
+        rx.snl = {}
+        logger = logging.getLogger("nfc.llcp.llc")
+        old_level, old_disable = logger.level, logging.root.manager.disable
+        if debug_on:
+            logging.disable(logging.NOTSET)
+            logger.setLevel(logging.DEBUG)
+            if not logger.handlers:
+                logger.addHandler(logging.NullHandler())
+        try:
+            rx.dispatch(rcvd)
+        finally:
+            logger.setLevel(old_level)
+            logging.disable(old_disable)
+        return seen
+
     nstates = 6000 if ck.thorough else 700
     reqs = []
     for n in range(nstates):
@@ -257,6 +286,17 @@ def run(ck):
                     if [x.encode() for x in got] != [x.encode() for x in subs]:
                         ck.fail("aggregation-not-transparent", "decoded aggregate differs from collected PDUs",
                                 {"state": before, "frame": enc.hex()})
+                    # the receiving controller must hand exactly these PDUs, in this order, to its SAPs
+                    # (with debug logging switched on and off: logging must not consume anything)
+                    for debug_on in (True, False):
+                        seen = receive(pdu.decode(enc), debug_on)
+                        want = [x.encode() for x in subs if x.name != "SYMM"]
+                        if frame.name == "AGF" and seen != want:
+                            ck.fail("aggregate-not-dispatched-in-order",
+                                    "receiver dispatched %d of %d aggregated PDUs (debug logging %s)"
+                                    % (len(seen), len(want), "on" if debug_on else "off"),
+                                    {"state": before, "frame": enc.hex(), "debug_logging": debug_on})
+                            break
                 except pdu.Error as e:
                     ck.fail("collected-frame-undecodable", "decode raised %r" % e, {"state": before, "frame": enc.hex()})
             nontrivial = frame is not None and (len(subs) >= 2 or (len(frame) - 2) >= miu - 8)
@@ -297,6 +337,38 @@ def run(ck):
             if ok != (n <= miu):
                 ck.fail("sendto-oversize-accepted" if ok else "sendto-refused", "sendto(%d bytes) at link MIU %d -> %s" % (n, miu, ok),
                         {"miu": miu, "n": n})
+        # connection-mode socket through the controller API: the CONNECTION MIU (from CONNECT/CC) governs,
+        # not the link MIU
+        for cmiu in sorted({128, max(128, miu - 1), max(128, miu // 2)}):
+            c = llc.socket(nfc.llcp.DATA_LINK_CONNECTION)
+            llc.bind(c)
+            c.peer = 34
+            c.state.ESTABLISHED = True
+            c.send_win = 15
+            c.send_miu = cmiu
+            for via in ("send", "sendto"):
+                for n in (cmiu - 1, cmiu, cmiu + 1, miu, miu + 1):
+                    c.send_cnt = c.send_ack = 0
+                    c.send_queue.clear()
+                    try:
+                        if via == "send":
+                            llc.send(c, bytes(n), nfc.llcp.MSG_DONTWAIT)
+                        else:
+                            llc.sendto(c, bytes(n), 34, nfc.llcp.MSG_DONTWAIT)
+                        ok = True
+                    except nfc.llcp.Error:
+                        ok = False
+                    ck.case(("llc." + via, miu, cmiu, n), True, "api")
+                    if ok and n > cmiu:
+                        ck.fail("i-payload-exceeds-connection-miu", "llc.%s(%d octets) accepted on a connection with MIU %d (link MIU %d)"
+                                % (via, n, cmiu, miu), {"link_miu": miu, "connection_miu": cmiu, "n": n, "via": via})
+                    if not ok and n <= cmiu:
+                        ck.fail("send-refused", "llc.%s(%d octets) refused on a connection with MIU %d" % (via, n, cmiu),
+                                {"link_miu": miu, "connection_miu": cmiu, "n": n})
+                    if c.send_miu != cmiu:
+                        ck.fail("connection-miu-overwritten", "llc.%s changed the connection MIU %d to %d" % (via, cmiu, c.send_miu),
+                                {"link_miu": miu, "connection_miu": cmiu})
+                        c.send_miu = cmiu
         d = tco.DataLinkConnection(recv_miu=128, recv_win=1)
         d.bind(33)
         d.peer = 34
